@@ -47,8 +47,9 @@ type c05Plan struct {
 	Seed    uint64     `json:"seed"`
 	Forks   string     `json:"forks"`
 	Blocks  []c05Block `json:"blocks"`
-	Deliver []int      `json:"deliver"` // block indices; -1 = restart; 1000+i = the branch ending at block i arrives through the sync path
-	Crash   bool       `json:"crash"`   // enumerate crash points inside deliveries
+	Deliver []int      `json:"deliver"`        // block indices; -1 = restart; 1000+i = the branch ending at block i arrives through the sync path
+	Crash   bool       `json:"crash"`          // enumerate crash points inside deliveries
+	Full    bool       `json:"full,omitempty"` // full-node mode (log / header notifications are published by goroutines started during insertion and removal)
 }
 
 type c05 struct{}
@@ -67,11 +68,11 @@ func (c05) Budget(tier string) runner.Budget {
 
 func (c05) Describe() runner.Description {
 	return runner.Description{
-		Rule:        "each plan: a seeded tree of 2..12 valid blocks (<=3 siblings per parent; different/equal TotalQN, higher/lower/equal prove value, with and without transfer transactions, siblings sharing transactions) generated with the node's own cast/verify/assemble API, then delivered to a fresh node in a seeded order with duplicates, orphans-before-parents, re-deliveries and restarts; in about a third of the plans one branch arrives through the sync path instead (a fork store rooted at the common ancestor, every block verified and executed on the fork, then merged: blockChainFork.triggerOnChain), as one delivery; the deliveries between two restarts run as one task of the seeded scheduler, so that a goroutine the node starts while handling a delivery is a task interleaved with the following deliveries. evaluations = invariant evaluations: after every delivery on the live node, and - fault enumeration - on a new incarnation booted from the disk image after EVERY individual store write of every delivery that wrote (exhaustive per plan). For a sixth of the crash images the restart's own repair writes are crash points too (a second process death during recovery). Invariant: head reachable from genesis by parent links; height index = that chain (cache bypassed and cached); nothing indexed above the head; verify-hash exactly up to the head; persisted head record = head; head state opens and fully resolves; no add/remove mark at quiescence; without crash the head only moves to a chain of not-lower weight (TotalQN, then prove value, then hash at the fork point); after a crash inside a head change the head is the old head, the new head or a common ancestor; transactions of canonical blocks are executed with a receipt naming their canonical block, those of removed blocks are not executed and (live) pending again; after the crash the restarted node accepts a valid extension of its head. distinct_nontrivial = distinct (tree shape, delivery order, crash index) triples whose delivery changed the head.",
+		Rule:        "each plan: a seeded tree of 2..12 valid blocks (<=3 siblings per parent; different/equal TotalQN, higher/lower/equal prove value, with and without transfer transactions, siblings sharing transactions) generated with the node's own cast/verify/assemble API, then delivered to a fresh node in a seeded order with duplicates, orphans-before-parents, re-deliveries and restarts; in about a third of the plans one branch arrives through the sync path instead (a fork store rooted at the common ancestor, every block verified and executed on the fork, then merged: blockChainFork.triggerOnChain), as one delivery; the deliveries between two restarts run as one task of the seeded scheduler, so that a goroutine the node starts while handling a delivery is a task interleaved with the following deliveries. evaluations = invariant evaluations: after every delivery on the live node, and - fault enumeration - on a new incarnation booted from the disk image after EVERY individual store write of every delivery that wrote (exhaustive per plan). A quarter of the plans run the node in full-node mode (notifications published by goroutines started during insertion and removal, as scheduler tasks with at most 0-2 preemptions). For a sixth of the crash images the restart's own repair writes are crash points too (a second process death during recovery). Invariant: head reachable from genesis by parent links; height index = that chain (cache bypassed and cached); nothing indexed above the head; verify-hash exactly up to the head; persisted head record = head; head state opens and fully resolves; no add/remove mark at quiescence; without crash the head only moves to a chain of not-lower weight (TotalQN, then prove value, then hash at the fork point); after a crash inside a head change the head is the old head, the new head or a common ancestor; transactions of canonical blocks are executed with a receipt naming their canonical block, those of removed blocks are not executed and (live) pending again; after the crash the restarted node accepts a valid extension of its head. distinct_nontrivial = distinct (tree shape, delivery order, crash index) triples whose delivery changed the head.",
 		Assumptions: []string{"stub ConsensusHelper accepts group signatures / VRF (judged by C13-C16)", "crash = process death after a completed store write (no torn or lost writes)", "the pending pool is memory-only by design, so 'pending again' is asserted on the live node and for the block the restart rolls back"},
 		Real:        []string{"core/blockchain*.go (add, insert, remove, consistency repair, fork choice, verify, cast)", "service tx pool + executed store", "core/vmexecutor + executors (transfers, rewards, refunds)", "storage/account + trie on real goleveldb over simulated storage", "types wire codecs (block records)"},
 		Stub:        []string{"ConsensusHelper", "network / sync processor (not started; its fork-store merge is driven directly)", "NTP clock"},
-		FaultKinds:  []string{"crash_after_store_write", "restart", "duplicate_delivery", "orphan_first", "reorg", "sync_merge", "crash_during_recovery"},
+		FaultKinds:  []string{"crash_after_store_write", "restart", "duplicate_delivery", "orphan_first", "reorg", "sync_merge", "crash_during_recovery", "full_node_mode"},
 		Exhaustive:  true,
 	}
 }
@@ -79,6 +80,7 @@ func (c05) Describe() runner.Description {
 func (c05) Gen(seed uint64, tier string) json.RawMessage {
 	r := simrt.NewRand(seed)
 	p := c05Plan{Seed: seed, Forks: string(node.ForksDevLike), Crash: r.Chance(0.8)}
+	p.Full = seed%4 == 0
 	if r.Chance(0.3) {
 		p.Forks = string(node.ForksLatestSync)
 	}
@@ -540,6 +542,11 @@ func (c05) Exec(raw json.RawMessage, st *simrt.Stats, log *simrt.Log) *simrt.Vio
 	}
 	forks := node.Forks(p.Forks)
 	disk := gimage.Clone()
+	common.SetFullNode(p.Full)
+	defer common.SetFullNode(false)
+	if p.Full {
+		st.Fault("full_node_mode")
+	}
 	n := node.Boot(disk, forks, false)
 	if v := c05Structure(n, k, -1, "after-boot", true); v != nil {
 		return v
@@ -767,7 +774,13 @@ func (c05) Exec(raw json.RawMessage, st *simrt.Stats, log *simrt.Log) *simrt.Vio
 		}
 		var loopViol *simrt.Violation
 		from, to := a, b
-		sres := simsched.Run(simsched.Options{Seed: p.Seed ^ 0x5ced ^ uint64(a), Policy: "random", MaxPreempt: -1, MaxSteps: 50000000}, []string{"deliverer"}, []func(){func() { loopViol = deliverRange(from, to) }})
+		// in full-node mode the number of preemptions is bounded (0-2): a goroutine started during an insertion
+		// then often runs only when the deliverer waits or has finished the segment
+		maxPre := -1
+		if p.Full {
+			maxPre = int(p.Seed>>3) % 3
+		}
+		sres := simsched.Run(simsched.Options{Seed: p.Seed ^ 0x5ced ^ uint64(a), Policy: "random", MaxPreempt: maxPre, MaxSteps: 50000000}, []string{"deliverer"}, []func(){func() { loopViol = deliverRange(from, to) }})
 		if sres.Panic != nil {
 			return simrt.Violationf("C05", "host-panic", "delivery", a, "%v", sres.Panic)
 		}
